@@ -1203,6 +1203,9 @@ type Bit struct {
 	ref        string
 	Position   int
 	extensions []*Extension
+
+	// position was stated, as opposed to assigned automatically
+	positionSet bool
 }
 
 type Enum struct {
@@ -1213,6 +1216,9 @@ type Enum struct {
 	val        int
 	ifs        []*IfFeature
 	extensions []*Extension
+
+	// value was stated, as opposed to assigned automatically
+	valSet bool
 }
 
 func (y *Enum) Value() int {
